@@ -117,6 +117,13 @@ def main():
             res['cex'] = parse_call_args(bad.message, fn)
             res['cex_message'] = bad.message[:600]
             res['cex_kind'] = bad.state.name
+            if 'NotDeterministic' in bad.message and res['cex'] is None:
+                # the same decisions led to a different execution: harness + code under test are not a function of the
+                # inputs inside one interpreter (state kept between paths).  No model exists; the runner replays the path
+                # witnesses repeatedly in one interpreter and otherwise counts the shard as inconclusive.
+                res['status'] = 'INCOMPLETE'
+                res['nondet'] = True
+                res['detail'] = 'CrossHair: NotDeterministic (state survives between paths in one interpreter)'
         elif any(s == MessageType.PRE_UNSAT for s in states):
             res['status'] = 'VACUOUS'
         elif states and all(s == MessageType.CONFIRMED for s in states):
